@@ -1,5 +1,10 @@
+import os, sys
+sys.path.insert(0, os.path.dirname(os.path.dirname(os.path.abspath(__file__))))
+from srcgen import regen_src  # pre-build generator: pure Go functions -> Gen/SrcPure.v
+
 PROP = {
-    "coq": ["C19"],
+    "coq": ["C19", "C19s"],
+    "pre": [regen_src],
     "exhaustive": False,
     "rule": "timing: modbus.VerifSerialTimings(rate) (= newRTUTransport) against the extracted char_time/t35, one case per rate: "
             "every rate 1..30000 (the whole 3.5-character regime and the 19200 bps switch, incl. every rate 19100..19300), "
@@ -23,7 +28,7 @@ PROP = {
 }
 
 CLAIM = {
-    "text": "For every baud rate 1..10^7 (the underlying lemmas hold for every rate >= 1) the computed character time is floor(11*10^9/rate) ns (eleven bit times to the "
+    "text": "Source level (C19s): serialCharTime is translated from the Go source on every run (harness/cmd/gosrc -> Gen/SrcPure.v) and proved equal to the model's character time for every rate. For every baud rate 1..10^7 (the underlying lemmas hold for every rate >= 1) the computed character time is floor(11*10^9/rate) ns (eleven bit times to the "
             "nanosecond) and the inter-frame delay is floor(3.5 character times) below 19200 bps - never above and less than 4.5 ns "
             "below the exact 38.5*10^9/rate - and exactly 1750 us from 19200 bps upward; no int64 overflow occurs for rates up to 10^7; "
             "the rule determines the two numbers uniquely. These are Coq theorems about the model, and the model is compared with "
@@ -38,6 +43,6 @@ CLAIM = {
             "connection; the measurement over-estimates the gap, so it can only reveal a client that skips the wait, not prove silence "
             "on a real RS-485 line. Trusted: Coq kernel, extraction (ExtrOcamlBasic), modeld glue (ocaml/scn_timing.ml), Go harness, "
             "VerifSerialTimings/VerifNewClientOnConn hooks.",
-    "technique": "Coq proof (lia/nia over Euclidean division facts; list induction with ForallOrdPairs for the history invariant) + "
+    "technique": "Coq proof over Go source functions translated on every run (GoLite deep embedding) + Coq proof (lia/nia over Euclidean division facts; list induction with ForallOrdPairs for the history invariant) + "
                  "differential correspondence on stratified/exhaustive rates + runtime measurement of inter-frame silence",
 }
